@@ -95,13 +95,16 @@ func spellings(canon string, cwd string, r interface{ Intn(int) int }, n int) []
 		}
 		// mutually exclusive ways of writing the front part
 		front := 0
-		for _, f := range []string{"upper-case-scheme", "file-one-slash", "bare-absolute-path", "relative-path"} {
+		for _, f := range []string{"file-one-slash", "bare-absolute-path", "relative-path"} {
 			if chosen[f] {
 				front++
 				if front > 1 {
 					delete(chosen, f)
 				}
 			}
+		}
+		if chosen["bare-absolute-path"] || chosen["relative-path"] {
+			delete(chosen, "upper-case-scheme") // no scheme to write
 		}
 		p := u.Path
 		relative := chosen["relative-path"]
@@ -132,6 +135,8 @@ func spellings(canon string, cwd string, r interface{ Intn(int) int }, n int) []
 			}
 		case chosen["bare-absolute-path"]:
 			text = "/" + text
+		case chosen["file-one-slash"] && chosen["upper-case-scheme"]:
+			text = "FILE:/" + text
 		case chosen["file-one-slash"]:
 			text = "file:/" + text
 		case chosen["upper-case-scheme"]:
@@ -207,6 +212,14 @@ func c11Expand(w *gen.World, base string, mode int) c11Outcome {
 		if err == nil && pan == "" {
 			o.out, _ = json.Marshal(s)
 		}
+	case 3:
+		// a schema that names itself with an id and contains a cycle: how the cut-points are written must not depend on the spelling
+		s := new(spec.Schema)
+		_ = json.Unmarshal([]byte(`{"id":"http://ids.example/c11/tree.json","title":"tree","properties":{"n":{"$ref":"#/definitions/node"}},"definitions":{"node":{"title":"node","properties":{"next":{"$ref":"#/definitions/node"}}}}}`), s)
+		err, pan = guard(func() error { return spec.ExpandSchemaWithBasePath(s, nil, opts) })
+		if err == nil && pan == "" {
+			o.out, _ = json.Marshal(s)
+		}
 	default:
 		ref := spec.MustCreateRef("#/definitions/d0")
 		var s *spec.Schema
@@ -236,11 +249,26 @@ func mustPath(u string) string {
 func c11Run(env *core.Env, idx int) core.CaseResult {
 	var res core.CaseResult
 	rng := core.Rng(env.Seed, "C11", idx)
+	symlinked := false
 	// relative spellings are taken against a real working directory
 	if env.Workdir != "" {
 		// the working directory changes from case to case: a relative spelling is taken against the current one
-		d := fmt.Sprintf("%s/cwd%d", env.Workdir, (idx/3)%3)
-		_ = os.MkdirAll(d, 0o755)
+		k := (idx / 3) % 3
+		d := fmt.Sprintf("%s/cwd%d", env.Workdir, k)
+		if (idx/9)%2 == 1 {
+			// every other round the working directory is reached through a symbolic link, and the documents exist on disk there:
+			// the logical path is the location, however it is spelled
+			_ = os.MkdirAll(fmt.Sprintf("%s/real%d/cwd", env.Workdir, k), 0o755)
+			link := fmt.Sprintf("%s/link%d", env.Workdir, k)
+			if _, err := os.Lstat(link); err != nil {
+				_ = os.Symlink(fmt.Sprintf("real%d", k), link)
+			}
+			d = link + "/cwd"
+			symlinked = true
+		} else {
+			_ = os.MkdirAll(d, 0o755)
+		}
+		_ = os.Setenv("PWD", d)
 		_ = os.Chdir(d)
 	}
 	cwd, err := os.Getwd()
@@ -262,6 +290,15 @@ func c11Run(env *core.Env, idx int) core.CaseResult {
 	}
 	w := relocate(w0, prefix)
 	res.Count("scheme."+kind, 1)
+	if symlinked && kind == "file" {
+		for u, d := range w.Docs {
+			p := strings.TrimPrefix(u, "file://")
+			_ = os.MkdirAll(path.Dir(p), 0o755)
+			b, _ := json.Marshal(d)
+			_ = os.WriteFile(p, b, 0o644)
+		}
+		res.Count("working-directory-behind-a-symlink(documents-on-disk)", 1)
+	}
 	in := oworld(w)
 	acyclic := in.Acyclic(oracle.SpecStarts(in, w.Root, true))
 	res.Hash = core.HashOf(w.Docs)
@@ -274,7 +311,7 @@ func c11Run(env *core.Env, idx int) core.CaseResult {
 	}
 	sps := spellings(w.Root, cwd, rng, 24)
 	nontrivial := 0
-	for mode, entry := range []string{"ExpandSpec", "ExpandSchemaWithBasePath", "ResolveRefWithBase"} {
+	for mode, entry := range []string{"ExpandSpec", "ExpandSchemaWithBasePath", "ResolveRefWithBase", "ExpandSchemaWithBasePath(schema-with-id)"} {
 		ref := c11Expand(w, w.Root, mode)
 		res.Evals++
 		if ref.errText != "" && mode == 0 {
@@ -309,7 +346,7 @@ func c11Run(env *core.Env, idx int) core.CaseResult {
 				res.Violate("spelling-changes-loader-requests "+cl, fmt.Sprintf("canonical: %v; spelling %q: %v", uniq(a), sp.text, uniq(b)), wit)
 				continue
 			}
-			if (acyclic || mode == 2) && !bytes.Equal(ref.out, got.out) {
+			if (acyclic || mode >= 2) && !bytes.Equal(ref.out, got.out) {
 				res.Violate("spelling-changes-result "+cl, fmt.Sprintf("spelling %q gives %s instead of %s", sp.text, core.Abbrev(string(got.out), 200), core.Abbrev(string(ref.out), 200)), wit)
 			} else if !acyclic && mode == 0 && got.errText == "" {
 				var out interface{}
@@ -346,8 +383,8 @@ func init() {
 		ID:    "C11",
 		Level: "exploration",
 		Rule: "multi-document worlds relocated under the worker's real working directory (file), an http and an https host; up to 24 spellings of the root location per world, each a combination of 1-4 of the listed rewrites " +
-			"(./ and x/../ segments, doubled slashes, upper-case scheme, trailing fragment, trailing query for files, file:/ with one slash, bare absolute path, path relative to the working directory); " +
-			"through ExpandSpec, ExpandSchemaWithBasePath and ResolveRefWithBase. monitors: same outcome, same set of loader requests and byte-identical result as with the canonical spelling (cyclic worlds: bisimilar), " +
+			"(./ and x/../ segments, doubled slashes, upper-case scheme also with one slash, trailing fragment, trailing query for files, file:/ with one slash, bare absolute path, path relative to the working directory); " +
+			"through ExpandSpec, ExpandSchemaWithBasePath (also of a cyclic schema that names itself with an id) and ResolveRefWithBase. monitors: same outcome, same set of loader requests and byte-identical result as with the canonical spelling (cyclic worlds: bisimilar), " +
 			"every loader request canonical (scheme, absolute clean path, no fragment, no query on files), normalizeBase idempotent on canonical locations. non-trivial = spelling differs from the canonical text",
 		NumCases: c11NumCases,
 		Run:      c11Run,
@@ -355,9 +392,9 @@ func init() {
 		ChunkSize: 24,
 		Floors: func(env *core.Env) []string {
 			return []string{"scheme.file", "scheme.http", "scheme.https", "rewrite.dot-segments", "rewrite.double-slash", "rewrite.upper-case-scheme", "rewrite.fragment", "rewrite.query",
-				"rewrite.file-one-slash", "rewrite.bare-absolute-path", "rewrite.relative-path", "entry.ExpandSpec", "entry.ExpandSchemaWithBasePath", "entry.ResolveRefWithBase"}
+				"rewrite.file-one-slash", "rewrite.bare-absolute-path", "rewrite.relative-path", "working-directory-behind-a-symlink(documents-on-disk)", "entry.ExpandSpec", "entry.ExpandSchemaWithBasePath", "entry.ResolveRefWithBase", "entry.ExpandSchemaWithBasePath(schema-with-id)"}
 		},
 		Assumptions: []string{"only the rewrites the statement lists are applied (no host-case or default-port rewrites)",
-			"the working directory of the worker is a real, symlink-free scratch directory; PWD is set to it"},
+			"the working directory of the worker is a real scratch directory, every other round reached through a symbolic link (PWD is set to the logical path, which is the location the documents are known under)"},
 	})
 }
